@@ -126,7 +126,7 @@ def list_jobs(tier):
 
 
 def options(tier):
-    return pipeline.Options(tau=1e-10, timeout_ms=4000 if tier == "quick" else 30000, max_queries=48 if tier == "quick" else 128, unroll=4)
+    return pipeline.Options(tau=1e-10, timeout_ms=2500 if tier == "quick" else 30000, max_queries=48 if tier == "quick" else 128, unroll=4, max_unknown=1 if tier == "quick" else 2, budget_s=20.0 if tier == "quick" else 90.0)
 
 
 def get(job):
